@@ -12,7 +12,7 @@ RULE = (
     'forwarding, explicit parent ids, self-recursive wildcard handlers deep enough to trip the recursion guard) with 1-3 actors awaiting roots and descendants before, during and long after '
     'processing. Oracle at the instant each external await returns: same object, no exception, all results terminal, '
     'every harness-known accepted descendant complete; liveness: no actor is still blocked in an await when the run '
-    'has been silent for longer than any generated wait. One scenario in fifteen also stops a bus (possibly with a handler in flight): '
+    'has been silent for longer than any generated wait. One scenario in six also stops a bus (possibly with a handler in flight): '
     'there only the converse is judged - a waiter whose whole tree has terminal results (cancelled handlers included) must have been released. Non-trivial = the awaited event had >= 1 accepted descendant; '
     'distinct by canonical JSON.'
 )
@@ -30,9 +30,9 @@ def strategy(tier):
 
     from bvt.props._scen import with_stop, with_wal
 
-    # a third of the cases come from the stop() sub-family (one in five of those actually stops a bus): there only the statement's
+    # a third of the cases come from the stop() sub-family (every second of those actually stops a bus): there only the statement's
     # converse binds - once every handler result of the awaited tree is terminal the waiter must be released
-    return st.integers(0, 2).flatmap(lambda k: with_stop(scenario(P), 5) if k == 0 else with_wal(mixed(scenario(P), tier, ID), 6))
+    return st.integers(0, 2).flatmap(lambda k: with_stop(scenario(P), 2) if k == 0 else with_wal(mixed(scenario(P), tier, ID), 6))
 
 
 def _awaited(F):
